@@ -238,6 +238,8 @@ func planC01(tier string, seed int64) (*Plan, error) {
 	p.Jobs = append(append(append(append(p.Jobs, ej...), ej2...), aj...), lj...)
 	dj, db := deepNestJobs("H_c01_convert", thorough, []string{all, core, cfg("gfm,footnote", "", "unsafe,xhtml")})
 	p.Jobs = append(p.Jobs, dj...)
+	sj, sb := extSeedJobs("H_c01_convert", thorough, false, []string{all, cfg("gfm,footnote,deflist,typographer", "attr", "unsafe,xhtml,hardwraps")})
+	p.Jobs = append(p.Jobs, sj...)
 	if thorough {
 		p.Jobs = append(p.Jobs, job("H_c01_convert", "cfg", core, "n", 4))
 		p.Jobs = append(p.Jobs, windowJobs("H_c01_convert", docs, seed+1, 150, 2, []string{all})...)
@@ -253,6 +255,7 @@ func planC01(tier string, seed int64) (*Plan, error) {
 		"attributes":    ab,
 		"long":          lb,
 		"deep":          db,
+		"ext seeds":     sb,
 		"budget":        "20M SSA instructions per path stands for 'terminates'; a budget hit is replayed natively under a 20 s watchdog",
 		"outside":       "longer free-form inputs, wider windows, user extensions, failing writers (C14)",
 	}
@@ -459,7 +462,10 @@ func convertFamilies(entry string, tier string, seed int64, cfgsS2, cfgsS3, cfgs
 	aj, ab := attrFamilyJobs(entry, thorough, light, []string{"core", allExt}, lastParts[2], extra...)
 	lj, lb := longDocJobs(entry, thorough, light, cfgsDeep, extra...)
 	jobs = append(append(append(jobs, ej...), aj...), lj...)
+	sj, sb := extSeedJobs(entry, thorough, light, []string{cfgsDeep[len(cfgsDeep)-1], cfg("gfm,footnote,deflist", lastParts[1], lastParts[2])}, extra...)
+	jobs = append(jobs, sj...)
 	b := map[string]interface{}{
+		"ext seeds":     sb,
 		"extensions":    eb,
 		"attributes":    ab,
 		"long":          lb,
